@@ -40,6 +40,6 @@ def one(name):
         meta["flagged_by_all"] = [c for c, v in res.items() if v["exit"] == 1]
     json.dump(meta, open(d + "/meta.json", "w"), indent=1)
     return name, pid, res
-with ThreadPoolExecutor(max_workers=4) as ex:
+with ThreadPoolExecutor(max_workers=int(os.environ.get("SEED_PAR", "4"))) as ex:
     for name, pid, res in ex.map(one, names):
         print(name, " ".join("%s=%d" % (c, v["exit"]) for c, v in res.items()), flush=True)
